@@ -8,7 +8,7 @@ From Bifrost Require Export Lib.Base SignalClient.Model SignalClient.Compose.
 
 Definition sgn_eqb (a b : sgn) : bool :=
   match a, b with
-  | SigOf k c x, SigOf k' c' x' => Nat.eqb k k' && bytes_eqb c c' && bytes_eqb x x'
+  | SigOf k c h x, SigOf k' c' h' x' => Nat.eqb k k' && bytes_eqb c c' && Z.eqb h h' && bytes_eqb x x'
   | SigJunk, SigJunk => true
   | _, _ => false
   end.
@@ -20,9 +20,18 @@ Definition from_eqb (a b : from_id) : bool :=
   | _, _ => false
   end.
 
+Definition att_eqb (a b : att_key) : bool :=
+  match a, b with
+  | AttNone, AttNone => true
+  | AttKey k, AttKey k' => Nat.eqb k k'
+  | AttBad, AttBad => true
+  | _, _ => false
+  end.
+
 Definition smsg_eqb (a b : smsg) : bool :=
   from_eqb (m_from a) (m_from b) && bytes_eqb (m_data a) (m_data b) &&
-  sgn_eqb (m_sig a) (m_sig b) && Z.eqb (m_seq a) (m_seq b).
+  sgn_eqb (m_sig a) (m_sig b) && Z.eqb (m_seq a) (m_seq b) &&
+  Z.eqb (m_ht a) (m_ht b) && att_eqb (m_att a) (m_att b).
 
 Definition request_eqb (a b : request) : bool :=
   match a, b with
